@@ -189,7 +189,10 @@ StepSess(s) ==
           /\ ss' = [ss EXCEPT ![ClientOf(s)] = [proto |-> 1, auth |-> NoAuth, open |-> TRUE]]
           /\ UNCHANGED acq
         ELSE IF j.op = "closed" THEN
-          \* the connection is gone (closed by either side): session end in the core
+          \* the connection is gone: session end in the core.  If it was the SERVER that ended the session
+          \* (field srv), the specification must have ended it before: a request whose handling ends the
+          \* session.  A server that drops sessions for no reason, or dies, is not explained.
+          /\ Has(j, "srv") => ~ss[ClientOf(s)].open
           /\ CoreStep([op |-> "disconnect", c |-> ClientOf(s)])
           /\ ss' = [ss EXCEPT ![ClientOf(s)].open = FALSE]
           /\ UNCHANGED acq
